@@ -168,7 +168,9 @@ func newPluginContainer() *PluginContainer {
 
 func (p *PluginContainer) cloneAndAppendMiddle(plugins ...Plugin) *PluginContainer {
 	middle := newPluginSingleContainer()
-	middle.plugins = append(p.middle.GetAll(), plugins...)
+	// copy: appending to the parent's slice would let sibling containers overwrite each other's plugins
+	middle.plugins = make([]Plugin, 0, len(p.middle.plugins)+len(plugins))
+	middle.plugins = append(append(middle.plugins, p.middle.plugins...), plugins...)
 
 	newPluginContainer := newPluginContainer()
 	newPluginContainer.middle = middle
@@ -179,7 +181,8 @@ func (p *PluginContainer) cloneAndAppendMiddle(plugins ...Plugin) *PluginContain
 	oldRefreshTree := p.refreshTree
 	p.refreshTree = func() {
 		oldRefreshTree()
-		newPluginContainer.refresh()
+		// refresh the derived container and everything derived from it
+		newPluginContainer.refreshTree()
 	}
 	return newPluginContainer
 }
